@@ -121,6 +121,25 @@ func classify(v interface{}) (s string) {
 	return "other"
 }
 
+type job struct{ n int }
+
+var free = make(chan *job, 2)
+var done = make(chan struct{})
+var anyc = make(chan interface{}, 1)
+
+func channels() string {
+	free <- &job{n: 1}
+	free <- new(job)
+	a := <-free
+	b, ok := <-free
+	anyc <- nil
+	x := <-anyc
+	close(done)
+	<-done
+	_, open := <-done
+	return fmt.Sprint(a.n, b.n, ok, x, open, len(free))
+}
+
 // Run exercises everything and returns a transcript.
 func Run() []string {
 	var out []string
@@ -137,6 +156,7 @@ func Run() []string {
 	for _, v := range []interface{}{nil, 1, -1, "s", 2.5} {
 		out = append(out, classify(v))
 	}
+	out = append(out, "chan "+channels())
 	del := map[string]int{"x": 1, "y": 2, "z": 3}
 	seen := 0
 	for k := range del {
